@@ -101,6 +101,7 @@ def check(ctx):
     pa = PathAnalysis(ctx.db, ctx.cg)
     check_sanitizer_shape(ctx)
     check_sanitizer_words(ctx)
+    check_word_is_tested_as_path(ctx)
     check_exposure_test(ctx)
     check_run_mapping(ctx)
     check_write_log(ctx)
@@ -946,3 +947,118 @@ def _leaf_alts(t):
             and t[1][1] in ('str', 'repr'):
         return _leaf_alts(t[2][0])
     return [t]
+
+
+def check_word_is_tested_as_path(ctx, rule='R-SAMEVAL/word-tested-as-is'):
+    """every word of a message is looked up in the file system under its
+    own spelling (quotation marks aside): the helper that turns a word into
+    the path handed to is_exposed returns, on every path through it,
+    `Path(<the word with characters removed>)`.  A return of some other
+    path for a class of words (too long, odd characters, a scheme prefix)
+    declares those words harmless without looking: an absolute path of that
+    class stays in the log."""
+    db = ctx.db
+    fi = db.fn(SANITIZER)
+    helpers = set()
+    for c in ast.walk(fi.node):
+        if isinstance(c, ast.Call) and getattr(
+                c.func, 'id', getattr(c.func, 'attr', None)) == 'is_exposed' \
+                and c.args:
+            sl = backward_slice(fi, c.args[0])
+            # the calls that produce the tested path
+            for d in ast.walk(fi.node):
+                if isinstance(d, ast.Assign) and isinstance(
+                        d.targets[0], ast.Name) \
+                        and d.targets[0].id in sl.names \
+                        and isinstance(d.value, ast.Call):
+                    t = resolve_callee(db, fi, d.value)
+                    if isinstance(t, FunctionInfo):
+                        helpers.add(t.qual)
+            if isinstance(c.args[0], ast.Call):
+                t = resolve_callee(db, fi, c.args[0])
+                if isinstance(t, FunctionInfo):
+                    helpers.add(t.qual)
+    n = 0
+
+    def from_word(t, params, depth=0):
+        if depth > 20 or not isinstance(t, tuple) or not t:
+            return False
+        if t[0] == 'param':
+            return t[1] in params
+        if t[0] == 'rec':
+            return True
+        if t[0] == 'phi':
+            return all(from_word(a, params, depth + 1) for a in t[1])
+        if t[0] == 'call' and isinstance(t[1], tuple) and t[1][0] == 'attr' \
+                and t[1][2] in ('replace', 'strip', 'lstrip', 'rstrip'):
+            return from_word(t[1][1], params, depth + 1)
+        if t[0] == 'call' and T.call_name(t) == 'str' and t[2]:
+            return from_word(t[2][0], params, depth + 1)
+        return False
+
+    if not helpers:
+        # the word is turned into a path in the sanitiser itself
+        cfg = cfg_of(fi)
+        rd = rd_of(fi)
+        ex = Expander(fi)
+        for node in cfg.nodes:
+            if node.id not in rd.live:
+                continue
+            for c in cfg.calls_in(node):
+                if getattr(c.func, 'id', getattr(c.func, 'attr', None)) \
+                        != 'is_exposed' or not c.args:
+                    continue
+                n += 1
+                t = ex.expand(c.args[0], node.id)
+
+                def word(x, depth=0):
+                    if depth > 20 or not isinstance(x, tuple) or not x:
+                        return False
+                    if x[0] == 'iterelem':
+                        return T.call_name(x[1]) == 'split'
+                    if x[0] == 'rec':
+                        return True
+                    if x[0] == 'phi':
+                        return all(word(a, depth + 1) for a in x[1])
+                    if x[0] == 'call' and isinstance(x[1], tuple) \
+                            and x[1][0] == 'attr' and x[1][2] in (
+                                'replace', 'strip', 'lstrip', 'rstrip'):
+                        return word(x[1][1], depth + 1)
+                    return False
+                ok = all(alt[0] == 'call' and T.call_name(alt) in (
+                    'Path', 'PurePath', 'PosixPath', 'PurePosixPath')
+                    and len(alt[2]) == 1 and word(alt[2][0])
+                    for alt in term_alts(t))
+                ctx.touch(fi)
+                ctx.ob(rule, f'{fi.qual}:tested#{n - 1}', fi.loc(c), ok,
+                       'the path tested is the word itself' if ok else
+                       f'the path tested can be {fmt_term(t)[:60]}, which '
+                       'is not the word of the message: words of that '
+                       'class are never looked up, and an absolute path '
+                       'among them is written to the log as it is')
+    for q in sorted(helpers):
+        h = db.fn(q)
+        cfg = cfg_of(h)
+        rd = rd_of(h)
+        ex = Expander(h)
+        params = set(h.params)
+        for node in cfg.nodes:
+            if node.kind != 'return' or node.id not in rd.live:
+                continue
+            n += 1
+            t = ex.expand(node.ast.value, node.id) \
+                if node.ast.value is not None else ('const', 'None')
+            ok = all(
+                alt[0] == 'call' and T.call_name(alt) in (
+                    'Path', 'PurePath', 'PosixPath', 'PurePosixPath')
+                and len(alt[2]) == 1 and from_word(alt[2][0], params)
+                for alt in term_alts(t))
+            ctx.touch(h)
+            ctx.ob(rule, f'{h.qual}:return#{n - 1}', h.loc(node.ast), ok,
+                   'the path tested is the word itself' if ok else
+                   f'{h.name} can return {fmt_term(t)[:60]}, which is not '
+                   'the word it was given: words of that class are never '
+                   'looked up in the file system, and an absolute path '
+                   'among them is written to the log as it is')
+    ctx.floor(rule, 1)
+    return n
